@@ -204,7 +204,11 @@ static void add_timer(void)
 static void add_fd(int reuse_number)
 {
 	int pfd[2]; if (pipe(pfd)) return;
-	if (reuse_number >= 0 && pfd[0] != reuse_number) { if (dup2(pfd[0], reuse_number) >= 0) { close(pfd[0]); pfd[0] = reuse_number; } }
+	if (reuse_number >= 0 && pfd[0] != reuse_number) {
+		/* the wanted number may have gone to the write end: move that out of the way first (dup2 would close it silently) */
+		if (pfd[1] == reuse_number) { int nw = fcntl(pfd[1], F_DUPFD, reuse_number + 1); if (nw < 0) { close(pfd[0]); close(pfd[1]); return; } close(pfd[1]); pfd[1] = nw; }
+		if (dup2(pfd[0], reuse_number) >= 0) { close(pfd[0]); pfd[0] = reuse_number; }
+	}
 	fcntl(pfd[0], F_SETFL, O_NONBLOCK); fcntl(pfd[1], F_SETFL, O_NONBLOCK);
 	int p = pick_prio(); int id = (int)FDS.size();
 	FDS.push_back(mfd{ pfd[0], pfd[1], p, false, 0, vr_bool(&V) != 0, 0 });
